@@ -17,7 +17,7 @@ from collections.abc import Callable, Iterable, Sized
 from dataclasses import dataclass, field
 from functools import wraps
 from itertools import count
-from math import inf
+from math import inf, isnan, ulp
 from opcode import opname
 from types import BuiltinFunctionType, BuiltinMethodType, CodeType, MethodType, TracebackType
 from typing import TYPE_CHECKING, Concatenate, ParamSpec
@@ -1014,6 +1014,37 @@ class AbstractExecutionTracer(ABC):  # noqa: PLR0904
         """
 
 
+def _numeric_distance(val1, val2) -> float:
+    """Absolute difference of two unequal numbers as a branch distance.
+
+    The difference is computed in the arithmetic of the operands (exact for integers
+    and fractions) and only the result is converted to a float, so that integers
+    beyond 2**53 keep their distance. Operands that cannot be subtracted from each
+    other (e.g., ``Decimal`` and ``float``) are converted first. Whenever no finite,
+    meaningful difference exists (overflow, NaN, complex vs. decimal, ...) the
+    distance is infinite. The result is never zero or NaN because the numbers are
+    known to differ.
+
+    Args:
+        val1: the first number
+        val2: the second number
+
+    Returns:
+        a positive distance
+    """
+    try:
+        distance = float(abs(val1 - val2))
+    except (ArithmeticError, TypeError, ValueError):
+        try:
+            distance = abs(float(val1) - float(val2))
+        except (ArithmeticError, TypeError, ValueError):
+            return inf
+    if isnan(distance):
+        return inf
+    # A difference that is too small for a float must not look like equality.
+    return distance or ulp(0.0)
+
+
 def _eq(val1, val2) -> float:
     """Distance computation for '=='.
 
@@ -1030,7 +1061,7 @@ def _eq(val1, val2) -> float:
     except TypeError:
         pass
     if is_numeric(val1) and is_numeric(val2):
-        return float(abs(val1 - val2))
+        return _numeric_distance(val1, val2)
     if is_string(val1) and is_string(val2):
         return string_distance(val1, val2)
     if is_bytes(val1) and is_bytes(val2):
@@ -1066,7 +1097,7 @@ def _lt(val1, val2) -> float:
     if val1 < val2:
         return 0.0
     if is_numeric(val1) and is_numeric(val2):
-        return (float(val1) - float(val2)) + 1.0
+        return _numeric_distance(val1, val2) + 1.0
     if is_string(val1) and is_string(val2):
         return string_lt_distance(val1, val2)
     if is_bytes(val1) and is_bytes(val2):
@@ -1087,7 +1118,7 @@ def _le(val1, val2) -> float:
     if val1 <= val2:
         return 0.0
     if is_numeric(val1) and is_numeric(val2):
-        return float(val1) - float(val2)
+        return _numeric_distance(val1, val2)
     if is_string(val1) and is_string(val2):
         return string_le_distance(val1, val2)
     if is_bytes(val1) and is_bytes(val2):
@@ -1375,7 +1406,7 @@ class ExecutionTracer(AbstractExecutionTracer):  # noqa: PLR0904
                     distance_false = len(value)
                 elif is_numeric(value):
                     # For numeric value, we can use their absolute value
-                    distance_false = float(abs(value))
+                    distance_false = _numeric_distance(value, 0)
                 else:
                     # Necessary to use inf instead of 1.0 here,
                     # so that a value for which we can't compute a false distance
